@@ -148,13 +148,36 @@ func (fdb *fsDb) Put(ctx context.Context, key []byte, val []byte) error {
 	}
 	logg.TraceCtxf(ctx, "fs put", "key", key, "lk", lk, "flk", flk, "val", val)
 	if flk.Translation != "" {
-		err = ioutil.WriteFile(flk.Translation, val, 0600)
+		err = fdb.writeFile(flk.Translation, val)
 		if err != nil {
 			return err
 		}
 		return nil
 	}
-	return ioutil.WriteFile(flk.Default, val, 0600)
+	return fdb.writeFile(flk.Default, val)
+}
+
+// writeFile replaces the record atomically: the value is written to a temporary
+// file in the store directory, which is then renamed over the record. A process
+// that dies half way leaves the previous record untouched.
+func (fdb *fsDb) writeFile(fp string, val []byte) error {
+	f, err := os.CreateTemp(fdb.dir, ".tmp-*")
+	if err != nil {
+		return err
+	}
+	tmp := f.Name()
+	_, err = f.Write(val)
+	cerr := f.Close()
+	if err == nil {
+		err = cerr
+	}
+	if err == nil {
+		err = os.Rename(tmp, fp)
+	}
+	if err != nil {
+		os.Remove(tmp)
+	}
+	return err
 }
 
 // Close implements the Db interface.
